@@ -90,7 +90,8 @@ def to_coq(op: dict, it: Interner, world: dict) -> Optional[str]:
         return f"DeleteBatch {z(op['batch'])}"
     if k == 'new_instance':
         pool = world['inst_colls'].get(op['inst_coll'], True)
-        return f"NewInstance {g('inst', op['name'])} {g('ic', op['inst_coll'])} {z(op['cores'])} {'true' if pool else 'false'}"
+        ic = g('ic', op['inst_coll']) if op['inst_coll'] in world['inst_colls'] else -1
+        return f"NewInstance {g('inst', op['name'])} {z(ic)} {z(op['cores'])} {'true' if pool else 'false'}"
     if k == 'activate_instance':
         return f"ActivateInstance {g('inst', op['name'])}"
     if k == 'deactivate_instance':
@@ -110,7 +111,8 @@ def to_coq(op: dict, it: Interner, world: dict) -> Optional[str]:
         return (f"MarkComplete {z(op['batch'])} {z(op['job'])} {z(g('att', op.get('attempt')))} {z(g('inst', op.get('instance')))} "
                 f"{JSTATE_COQ[op['state']]} {oz(op.get('start'))} {oz(op.get('end'))} {g('reason', op.get('reason') or 'completed')}")
     if k == 'add_attempt_resources':
-        rs = '; '.join(f"({g('res', r['name'])}, {z(r['quantity'])})" for r in op['resources'])
+        known = world.get('resources', ['cpu', 'mem', 'disk'])
+        rs = '; '.join(f"({z(g('res', r['name']) if r['name'] in known else -1)}, {z(r['quantity'])})" for r in op['resources'])
         return f"AddAttemptResources {z(op['batch'])} {z(op['job'])} {g('att', op['attempt'])} [{rs}]"
     if k == 'billing_update':
         at = '; '.join(f"({z(b)}, {z(j)}, {g('att', a)})" for b, j, a in op['attempts'])
@@ -242,9 +244,10 @@ def run_model(ctx, histories: List[List[dict]], world: Optional[dict] = None, sh
     return [(v, idx, it) for v, (idx, it) in zip(vals, metas)]
 
 
-def compare(ctx, histories: List[List[dict]], world: Optional[dict] = None, name: str = 'BatchDB.Model.step~real SQL+handlers on minisql'):
+def compare(ctx, histories: List[List[dict]], world: Optional[dict] = None, name: str = 'BatchDB.Model.step~real SQL+handlers on minisql', impl=None):
     """Full correspondence on the given histories. Returns (Corr, impl_results)."""
-    impl = run_impl(ctx, histories, 'all', world)
+    if impl is None:
+        impl = run_impl(ctx, histories, 'all', world)
     model = run_model(ctx, histories, world)
     dis: List[Disagreement] = []
     n_ops = 0
